@@ -126,6 +126,16 @@ impl SliderPath {
         self.curve = None;
     }
 
+    /// Sets the mode that the curve is calculated for.
+    ///
+    /// A differing mode invalidates the stored curve.
+    pub(crate) fn set_mode(&mut self, mode: GameMode) {
+        if self.mode != mode {
+            self.mode = mode;
+            self.clear_curve();
+        }
+    }
+
     fn calculate_curve(&self) -> Curve {
         self.calculate_curve_with_bufs(&mut CurveBuffers::default())
     }
